@@ -31,7 +31,7 @@ static __thread volatile int in_call;
 void __assert_fail (const char *a, const char *f, unsigned int l, const char *fn)
 {
   (void)a; (void)f; (void)l; (void)fn;
-  if (in_call && abort_jmp) longjmp (*abort_jmp, 1);
+  if (in_call && abort_jmp) { fprintf (stderr, "ASSERT in call: %s %s:%u (%s)\n", a, f, l, fn); longjmp (*abort_jmp, 1); }
   fprintf (stderr, "assertion outside call: %s %s:%u in_call=%d jmp=%p\n", a, f, l, in_call, (void*)abort_jmp);
   _exit (99);
 }
